@@ -55,4 +55,12 @@ def nearest_t (w1 w2 w3 w4 point : V2 K) : K :=
 def path_closest (curves : List (T4 (V2 K) (V2 K) (V2 K) (V2 K))) (point : V2 K) : T4 Nat K K (V2 K) :=
   path_closest_point (fun c p => nearest_t c.t0 c.t1 c.t2 c.t3 p) curves point
 
+/-- the same with the GENERATED Bézier form (`Gen.gen_distance_in_bezier_form`, equal to the hand model above for every input:
+    `C09Gen.gen_eq_model`): what the driver runs against the implementation -/
+def nearest_t_gen (w1 w2 w3 w4 point : V2 K) : K :=
+  nearest_point_on_curve_bezier_root_finder gen_distance_in_bezier_form (find_bezier_roots 6) w1 w2 w3 w4 point
+
+def path_closest_gen (curves : List (T4 (V2 K) (V2 K) (V2 K) (V2 K))) (point : V2 K) : T4 Nat K K (V2 K) :=
+  path_closest_point (fun c p => nearest_t_gen c.t0 c.t1 c.t2 c.t3 p) curves point
+
 end Model.Nearest
